@@ -121,6 +121,7 @@ func (ls *lockSpec) access(w *World, in ssa.Instruction) (kind int, desc string,
 
 // analyse runs the lockset dataflow over every function that touches the struct.
 func (w *World) lockset(ls *lockSpec) *lockResult {
+	defer w.noCtx()()
 	res := &lockResult{}
 	type summary struct {
 		needs int // lock state required at entry (0: none, lkR, lkW)
